@@ -76,13 +76,21 @@ def run(ctx: Context) -> None:
                     after_read = l.body[l.body.index(reads[0]) + 1:]
                 seq = before if ifnode is not None else after_read
                 rebound = {}
+                rb_ast: dict[str, ast.AST] = {}
                 for s_ in seq:
                     if isinstance(s_, ast.Assign):
                         rebound[norm(s_.targets[0])] = norm(s_.value)
+                        rb_ast[norm(s_.targets[0])] = s_.value
                     elif isinstance(s_, ast.AnnAssign) and s_.value is not None:
                         rebound[norm(s_.target)] = norm(s_.value)
-                fresh = rebound.get("local_flow") == "self._h2_state.local_flow_control_window(stream_id)" and rebound.get("max_frame_size") == "self._h2_state.max_outbound_frame_size" \
-                    and rebound.get("flow") == "min(local_flow,max_frame_size)"
+                        rb_ast[norm(s_.target)] = s_.value
+                # `flow` is recomputed from the two h2 quantities - through temporaries of any name, or in one expression
+
+                class _Sub(ast.NodeTransformer):
+                    def visit_Name(self, n: ast.Name) -> ast.AST:
+                        return _Sub().visit(ast.parse(ast.unparse(rb_ast[n.id]), mode="eval").body) if n.id in rb_ast and n.id != "flow" else n
+                flow_full = norm(_Sub().visit(ast.parse(ast.unparse(rb_ast["flow"]), mode="eval").body)) if "flow" in rb_ast else None
+                fresh = flow_full == WINDOW
                 other_exits = [x for x in ast.walk(l) if isinstance(x, (ast.Continue,))]
                 ok = table_ok and fresh and bool(reads) and not other_exits
                 detail = ("waits while there is no credit - also while the window is negative (exit test true exactly for flow > 0 over -64535, -1, 0, 1, 16384) - and re-reads window and "
